@@ -93,7 +93,9 @@ impl PatternLinter for ModalOf {
             }
             // False positive: <word> _ might _ of _ course
             7 => return None,
-            _ => unreachable!(),
+            // The whitespace between two of the words consists of several tokens (a space
+            // followed by a line break): not one of the shapes handled above.
+            _ => return None,
         };
 
         let span_modal_of = matched_toks[modal_index..modal_index + 3].span().unwrap();
